@@ -12,7 +12,9 @@ LEVEL = 'exploration'
 TECHNIQUE = 'runtime monitoring: round-trip oracle on abstract values over generated (type, value, mode) cases'
 RULE = ('cases = (type T, value v, defMode, maxChunkSize) drawn from the seeded universe generator '
         '(boundary catalogue mixed in); a case is non-trivial when T is constructed, tagged, or a string longer '
-        'than the chunk size, or v hits a boundary class; distinct = distinct sha1 of (T, canon(v), mode)')
+        'than the chunk size, or v hits a boundary class; distinct = distinct sha1 of (T, canon(v), mode); every '
+        'eighth case is a REAL type asking for base 8 / base 16 (Real.binEncBase) with boundary mantissas/exponents, '
+        'bare, tagged or inside a SEQUENCE / SEQUENCE OF')
 ASSUMPTIONS = ['vlib.universe legality rules generate only ASN.1 types pyasn1 documents as supported',
                'vlib.build.absval reads objects only through public non-instantiating accessors',
                'vlib.refx690 (independent X.690 reference) emulates the pinned stray end-of-octets finding '
@@ -61,10 +63,52 @@ def check_case(res, T, v, modes, bt=None):
         res.sample(C.sample_of(T, v, modes=modes))
 
 
+def check_realbase(res, fixed, defMode):
+    """A REAL type that asks for base 8 / base 16 encoding (Real.binEncBase): same number back, nothing left over."""
+    from fractions import Fraction
+    base, m, e, wrap = fixed
+    case = ('c01-realbase', base, m, e, wrap, defMode)
+    feats = {'type:real', 'real-base2', 'real-binEncBase:%d' % base, 'wrap:' + wrap}
+    if not defMode:
+        feats.add('indefinite')
+    if wrap == 'explicit' and not defMode:
+        return      # zone of the pinned stray end-of-octets finding (explicit tag over a primitive, indefinite mode)
+    res.case(U.case_hash(case), True)
+    res.see('realbase-cases')
+    val, schema, pick = C.realbase_objects(base, m, e, wrap)
+    try:
+        data = ber_encoder.encode(val, defMode=defMode)
+    except Exception as ex:
+        c = H.classify_exception(ex)
+        res.witness('ber:encode-raised:%s' % (c if not isinstance(c, tuple) else 'leak:' + c[1]), feats, case, ex)
+        return
+    try:
+        d, rest = ber_decoder.decode(data, asn1Spec=schema)
+        got = tuple(pick(d))
+    except Exception as ex:
+        c = H.classify_exception(ex)
+        res.witness('ber:decode-raised:%s' % (c if not isinstance(c, tuple) else 'leak:' + c[1]), feats, case,
+                    '%s on %s' % (ex, data.hex()[:200]))
+        return
+    if rest:
+        res.witness('ber:remainder', feats, case, '%s left of %s' % (rest.hex()[:40], data.hex()[:200]))
+    elif Fraction(got[0]) * Fraction(got[1]) ** got[2] != Fraction(m) * Fraction(2) ** e:
+        res.witness('ber:value-differs:real', feats, case, '%r came back as %r via %s' % ((m, 2, e), got, data.hex()[:200]))
+    else:
+        res.see('realbase-roundtrip-ok')
+
+
 def run_shard(shard, tier, seed):
     res = H.Result(ID)
     rng = C.rng_for(seed, ID, shard['shard'])
     for i in range(shard['n']):
+        if i % 8 == 0:
+            try:
+                check_realbase(res, C.realbase_case(rng), rng.random() < 0.5)
+            except Exception:
+                res.see('harness:error')
+                if len(res.inconclusive) < 3:
+                    res.inconclusive.append('harness error: ' + H.fmt_exc())
         T, v = C.gen_case(rng, tier, any_maker=R.ber_any_maker)
         try:
             check_case(res, T, v, modes_for(rng))
@@ -79,6 +123,9 @@ def replay(case):
     if case[0] == 'enc':
         return C.replay_enc(ID, case)
     res = H.Result(ID)
+    if case[0] == 'c01-realbase':
+        check_realbase(res, tuple(case[1:5]), case[5])
+        return res
     _, T, v, defMode, chunk = case
     check_case(res, T, v, [(defMode, chunk)])
     return res
